@@ -64,10 +64,45 @@ theorem tight_munlock {c : Cfg} (hP : 0 < c.P) {m : Mach} {v : PVec} {dp : Perm}
     rw [munlockK_locked hP]
     simp [hn]
 
+/-- the oracle never answers `failFlagged` (true of every `Bool` oracle) -/
+def NoFF (m : Mach) : Prop := ∀ i, m.oracle i ≠ .failFlagged
+
+/-- a failed lock request cannot leave a lock flag behind on ACCESSIBLE pages: the failure path undoes it
+(repaired `dryoc_mlock`), or the kernel never flags before failing -/
+def Leakless (c : Cfg) (m : Mach) : Prop := c.undo = true ∨ NoFF m
+
+theorem noFF_of_oracle_eq {m m' : Mach} (h : m'.oracle = m.oracle) (hn : NoFF m) : NoFF m' := by
+  intro i; rw [h]; exact hn i
+
+theorem Leakless.of_oracle_eq {c : Cfg} {m m' : Mach} (h : m'.oracle = m.oracle) (hl : Leakless c m) : Leakless c m' :=
+  hl.imp id (noFF_of_oracle_eq h)
+
+/-- what `tight_lockV` asks of a lock request on accessible pages, from `Leakless` -/
+theorem Leakless.hdp_rw {c : Cfg} {m m' : Mach} (hl : Leakless c m) (ho : m'.oracle = m.oracle) {dp : Perm}
+    (hdp : dp ≠ .none) {len : Nat} :
+    c.undo = true ∨ (dp ≠ .none ∧ m'.oracle (m'.cnt + 1) ≠ .failFlagged) ∨ len = 0 := by
+  rcases hl with hu | hn
+  · exact Or.inl hu
+  · exact Or.inr (Or.inl ⟨hdp, by rw [ho]; exact hn _⟩)
+
+/-- `madvise` changes nothing the page invariant looks at -/
+theorem GoodL.madvise {P : Nat} {k : Kernel} {bl : List Blk} (g : GoodL P k bl) (a l : Nat) (b : Bool) :
+    GoodL P (madviseK P k a l b) bl :=
+  ⟨g.start, g.fresh,
+   fun o ho => let h := g.ok o ho; ⟨h.lenle, h.buflen, h.lo, h.hi, h.fore, h.aft, h.data, h.spare⟩,
+   g.disj, g.outside, g.led, g.albase⟩
+
+theorem TightL.madvise {P : Nat} {k : Kernel} {bl : List Blk} (t : TightL P k bl) (a l : Nat) (b : Bool) :
+    TightL P (madviseK P k a l b) bl := t
+
 /-- flag of the data pages after a lock request on an unlocked block: set iff the request reached
-the kernel and either succeeded or (leaky variant only) was not undone -/
+the kernel's lock flags and either succeeded or (leaky variant only) was not undone -/
 def lockFlag (c : Cfg) (m : Mach) (v : PVec) : Bool :=
-  decide (v.len ≠ 0) && m.oracle (m.cnt + 1) && ((mlockK c.P m.k (ptr c v) v.len).2 || !c.undo)
+  decide (v.len ≠ 0) &&
+    match m.oracle (m.cnt + 1) with
+    | .grant => (mlockK c.P m.k (ptr c v) v.len).2 || !c.undo
+    | .refuse => false
+    | .failFlagged => !c.undo
 
 /-- `munlock` on the data pages, whatever their flag was -/
 theorem good_munlockK {P : Nat} (hP : 0 < P) {k : Kernel} {v : PVec} {dp : Perm} {dl : Bool}
@@ -114,33 +149,39 @@ theorem good_dryocMlock {c : Cfg} (hP : 0 < c.P) {m : Mach} {v : PVec} {dp : Per
     exact ⟨this _, fun _ => this _⟩
   simp only [h0, if_false]
   have hd : decide (v.len ≠ 0) = true := by simp [h0]
-  by_cases hor : m.oracle (m.cnt + 1) = true
-  · simp only [hor, if_true, hd, Bool.true_and]
-    have g1 := good_mlockK hP g
-    rw [← ptr_eq] at g1
+  have g0 := g.madvise (ptr c v) v.len true
+  have g1 := good_mlockK hP g0
+  rw [← ptr_eq] at g1
+  have gu : ∀ {k : Kernel} {dl : Bool}, GoodL c.P k (⟨v, dp, dl⟩ :: R) →
+      GoodL c.P (if c.undo = true then munlockK c.P k (ptr c v) v.len else k)
+        (⟨v, dp, if c.undo = true then false else dl⟩ :: R) := by
+    intro k dl gk
+    by_cases hu : c.undo = true
+    · simp only [hu, if_true]
+      have g2 := good_munlockK hP gk
+      simpa [ptr_eq] using g2
+    · simp only [hu]; exact gk
+  cases hor : m.oracle (m.cnt + 1) with
+  | grant =>
+    simp only [hd, Bool.true_and, mlockK_madvise_snd]
     by_cases hk : (mlockK c.P m.k (ptr c v) v.len).2 = true
     · simp only [hk, if_true, Bool.true_or]
       exact ⟨g1, fun _ => g1⟩
     · have hk' : (mlockK c.P m.k (ptr c v) v.len).2 = false := by simpa using hk
       simp only [hk', Bool.false_or, failedLock]
       refine ⟨?_, by simp⟩
-      by_cases hu : c.undo = true
-      · simp only [hu, if_true, Bool.not_true]
-        have g2 := good_munlockK hP g1
-        simpa [ptr_eq] using g2
-      · have hu' : c.undo = false := by simpa using hu
-        simp only [hu', Bool.not_false]
-        exact g1
-  · have hor' : m.oracle (m.cnt + 1) = false := by simpa using hor
-    simp only [hor', Bool.and_false, Bool.false_and, failedLock]
+      have := gu g1
+      by_cases hu : c.undo = true <;> simpa [hu] using this
+  | refuse =>
+    simp only [Bool.and_false, failedLock]
     refine ⟨?_, by simp⟩
-    by_cases hu : c.undo = true
-    · simp only [hu, if_true]
-      have g2 := good_munlockK hP g
-      simpa [ptr_eq] using g2
-    · have hu' : c.undo = false := by simpa using hu
-      simp only [hu']
-      exact g
+    have := gu g0
+    by_cases hu : c.undo = true <;> simpa [hu] using this
+  | failFlagged =>
+    simp only [hd, Bool.true_and, failedLock]
+    refine ⟨?_, by simp⟩
+    have := gu g1
+    by_cases hu : c.undo = true <;> simpa [hu] using this
 
 theorem tight_dryocMlock {c : Cfg} (hP : 0 < c.P) {m : Mach} {v : PVec} {dp : Perm} {dl : Bool}
     {R : List Blk} (t : TightL c.P m.k (⟨v, dp, dl⟩ :: R)) (hl : v.len ≤ v.cap) (p' : Perm) (l' : Bool) :
@@ -149,9 +190,12 @@ theorem tight_dryocMlock {c : Cfg} (hP : 0 < c.P) {m : Mach} {v : PVec} {dp : Pe
       (∀ i, ¬ (v.base + 1 ≤ i ∧ i < v.base + 1 + pagesOf c.P v.len) →
         k'.perm i = m.k.perm i ∧ k'.locked i = m.k.locked i) →
       TightL c.P k' (⟨v, p', l'⟩ :: R) := fun k' h => tight_dataop hP t hl h
+  have f0 : ∀ i, ¬ (v.base + 1 ≤ i ∧ i < v.base + 1 + pagesOf c.P v.len) →
+      (madviseK c.P m.k (ptr c v) v.len true).perm i = m.k.perm i ∧
+      (madviseK c.P m.k (ptr c v) v.len true).locked i = m.k.locked i := fun _ _ => ⟨rfl, rfl⟩
   have f1 : ∀ i, ¬ (v.base + 1 ≤ i ∧ i < v.base + 1 + pagesOf c.P v.len) →
-      (mlockK c.P m.k (ptr c v) v.len).1.perm i = m.k.perm i ∧
-      (mlockK c.P m.k (ptr c v) v.len).1.locked i = m.k.locked i := by
+      (mlockK c.P (madviseK c.P m.k (ptr c v) v.len true) (ptr c v) v.len).1.perm i = m.k.perm i ∧
+      (mlockK c.P (madviseK c.P m.k (ptr c v) v.len true) (ptr c v) v.len).1.locked i = m.k.locked i := by
     intro i hn
     simp only [ptr_eq, mlockK_perm]
     rw [mlockK_locked hP]; simp [hn]
@@ -161,35 +205,40 @@ theorem tight_dryocMlock {c : Cfg} (hP : 0 < c.P) {m : Mach} {v : PVec} {dp : Pe
     intro k i hn
     simp only [ptr_eq, munlockK_perm]
     rw [munlockK_locked hP]; simp [hn]
+  have fu : ∀ k : Kernel, (∀ i, ¬ (v.base + 1 ≤ i ∧ i < v.base + 1 + pagesOf c.P v.len) →
+        k.perm i = m.k.perm i ∧ k.locked i = m.k.locked i) →
+      TightL c.P (failedLock c m k (ptr c v) v.len).k (⟨v, p', l'⟩ :: R) := by
+    intro k hk
+    simp only [failedLock]
+    split
+    · exact hfr _ (fun i hn => by rw [(f2 _ i hn).1, (f2 _ i hn).2]; exact hk i hn)
+    · exact hfr _ hk
   unfold dryocMlock
   split
   · exact tight_setvec t rfl rfl
+  simp only []
   split
-  · simp only []
-    split
+  · split
     · exact hfr _ f1
-    · simp only [failedLock]
-      split
-      · exact hfr _ (fun i hn => by rw [(f2 _ i hn).1, (f2 _ i hn).2]; exact f1 i hn)
-      · exact hfr _ f1
-  · simp only [failedLock]
-    split
-    · exact hfr _ (f2 _)
-    · exact tight_setvec t rfl rfl
+    · exact fu _ f1
+  · exact fu _ f0
+  · exact fu _ f1
 
 /-- a failed lock request leaves the data pages unlocked: always in the repaired model; in the
-leaky variant only if the pages are not `PROT_NONE` (then it can only have been refused) -/
+leaky variant only if the pages are not `PROT_NONE` and the kernel did not flag them before failing (then the
+request can only have been refused) -/
 theorem dryocMlock_fail_flag {c : Cfg} (hP : 0 < c.P) {m : Mach} {v : PVec} {dp : Perm}
     {R : List Blk} (g : GoodL c.P m.k (⟨v, dp, false⟩ :: R))
-    (hdp : c.undo = true ∨ dp ≠ .none ∨ v.len = 0)
+    (hdp : c.undo = true ∨ (dp ≠ .none ∧ m.oracle (m.cnt + 1) ≠ .failFlagged) ∨ v.len = 0)
     (hf : (dryocMlock c m (ptr c v) v.len).2 = false) : lockFlag c m v = false := by
   have ho := g.ok _ (List.mem_cons_self)
   unfold dryocMlock at hf
   unfold lockFlag
   by_cases h0 : v.len = 0
   · simp [h0] at hf
-  by_cases hor : m.oracle (m.cnt + 1) = true
-  · by_cases hk : (mlockK c.P m.k (ptr c v) v.len).2 = true
+  cases hor : m.oracle (m.cnt + 1) with
+  | grant =>
+    by_cases hk : (mlockK c.P m.k (ptr c v) v.len).2 = true
     · simp [h0, hor, hk] at hf
     · have hk' : (mlockK c.P m.k (ptr c v) v.len).2 = false := by simpa using hk
       rcases hdp with hu | hdp | hdp
@@ -197,10 +246,62 @@ theorem dryocMlock_fail_flag {c : Cfg} (hP : 0 < c.P) {m : Mach} {v : PVec} {dp 
       · exfalso; apply hk
         rw [ptr_eq, mlockK_ok_iff hP]
         intro i h1 h2
-        rw [(ho.data i h1 h2).1]; exact hdp
+        rw [(ho.data i h1 h2).1]; exact hdp.1
       · exact absurd hdp h0
-  · have hor' : m.oracle (m.cnt + 1) = false := by simpa using hor
-    simp [hor']
+  | refuse => simp
+  | failFlagged =>
+    rcases hdp with hu | hdp | hdp
+    · simp [hu]
+    · exact absurd hor hdp.2
+    · exact absurd hdp h0
+
+/-- WITHOUT the undo (`c.undo = false`, the tree before the repair) a `failFlagged` answer leaves the data pages of
+the region flagged locked although `dryoc_mlock` reported failure — finding E15's shape on ACCESSIBLE pages -/
+theorem dryocMlock_failFlagged_leaky {c : Cfg} {m : Mach} {v : PVec} (hu : c.undo = false) (h0 : v.len ≠ 0)
+    (hor : m.oracle (m.cnt + 1) = .failFlagged) :
+    (dryocMlock c m (ptr c v) v.len).2 = false ∧ lockFlag c m v = true := by
+  unfold dryocMlock lockFlag
+  simp [h0, hor, hu]
+
+/-! ### nothing but `failfrom` touches the oracle -/
+
+@[simp] theorem dryocMprotect_oracle (c : Cfg) (m : Mach) (a l : Nat) (p : Perm) :
+    (dryocMprotect c m a l p).oracle = m.oracle := rfl
+
+@[simp] theorem dryocMunlock_oracle (c : Cfg) (m : Mach) (a l : Nat) : (dryocMunlock c m a l).oracle = m.oracle := by
+  unfold dryocMunlock; split <;> rfl
+
+@[simp] theorem dryocMlock_oracle (c : Cfg) (m : Mach) (a l : Nat) : (dryocMlock c m a l).1.oracle = m.oracle := by
+  unfold dryocMlock; split
+  · rfl
+  · simp only []; split
+    · split <;> rfl
+    · rfl
+    · rfl
+
+@[simp] theorem plainDrop_oracle (c : Cfg) (m : Mach) (v : PVec) : (plainDrop c m v).oracle = m.oracle := by
+  simp [plainDrop]
+
+@[simp] theorem protAtWipe_oracle (c : Cfg) (m : Mach) (v : PVec) (pm : PM) : (protAtWipe c m v pm).oracle = m.oracle := by
+  unfold protAtWipe; split <;> simp
+
+@[simp] theorem protZeroize_oracle (c : Cfg) (m : Mach) (v : PVec) (lm : LM) (pm : PM) :
+    (protZeroize c m v lm pm).1.oracle = m.oracle := by
+  unfold protZeroize; simp only []; split <;> simp
+
+@[simp] theorem protDrop_oracle (c : Cfg) (m : Mach) (v : PVec) (lm : LM) (pm : PM) :
+    (protDrop c m v lm pm).oracle = m.oracle := by
+  simp [protDrop]
+
+@[simp] theorem objDrop_oracle (c : Cfg) (m : Mach) (o : Obj) : (objDrop c m o).oracle = m.oracle := by
+  unfold objDrop; split <;> simp
+
+@[simp] theorem lockV_oracle (c : Cfg) (m : Mach) (v : PVec) (rc : LM × PM) : (lockV c m v rc).1.oracle = m.oracle := by
+  unfold lockV; simp only []; split <;> simp
+
+@[simp] theorem lockedResize_oracle (c : Cfg) (m : Mach) (v : PVec) (rc : LM × PM) (n : Nat) (b : UInt8) :
+    (lockedResize c m v rc n b).1.oracle = m.oracle := by
+  unfold lockedResize; simp only []; split <;> simp
 
 /-! ### drops -/
 
@@ -305,7 +406,7 @@ theorem good_lockV {c : Cfg} (hP : 0 < c.P) {m : Mach} {v : PVec} {dp : Perm}
 
 theorem tight_lockV {c : Cfg} (hP : 0 < c.P) {m : Mach} {v : PVec} {dp : Perm}
     {R : List Blk} (t : TightL c.P m.k (⟨v, dp, false⟩ :: R)) (g : GoodL c.P m.k (⟨v, dp, false⟩ :: R))
-    (pm : LM × PM) (hdp : c.undo = true ∨ dp ≠ .none ∨ v.len = 0) :
+    (pm : LM × PM) (hdp : c.undo = true ∨ (dp ≠ .none ∧ m.oracle (m.cnt + 1) ≠ .failFlagged) ∨ v.len = 0) :
     ((lockV c m v pm).2 = true → TightL c.P (lockV c m v pm).1.k (⟨v, dp, true⟩ :: R)) ∧
     ((lockV c m v pm).2 = false → TightL c.P (lockV c m v pm).1.k R) := by
   have h := good_dryocMlock hP g
@@ -364,7 +465,7 @@ theorem good_lockedResize {c : Cfg} (hP : 0 < c.P) {m : Mach} {v : PVec} {dl : B
 
 theorem tight_lockedResize {c : Cfg} (hP : 0 < c.P) {m : Mach} {v : PVec} {dl : Bool}
     {R : List Blk} (t : TightL c.P m.k (⟨v, .rw, dl⟩ :: R)) (g : GoodL c.P m.k (⟨v, .rw, dl⟩ :: R))
-    (rc : LM × PM) (hrc : dl = true → rc.1 = .locked) (n : Nat) (b : UInt8 := 0) :
+    (rc : LM × PM) (hrc : dl = true → rc.1 = .locked) (hl : Leakless c m) (n : Nat) (b : UInt8 := 0) :
     match (lockedResize c m v rc n b).2 with
     | none => TightL c.P (lockedResize c m v rc n b).1.k (⟨v, .rw, dl⟩ :: R)
     | some nv => TightL c.P (lockedResize c m v rc n b).1.k (⟨nv, .rw, true⟩ :: R) := by
@@ -372,7 +473,7 @@ theorem tight_lockedResize {c : Cfg} (hP : 0 < c.P) {m : Mach} {v : PVec} {dl : 
   have g1 := good_vecResize hP g0 n b
   have t1 := tight_vecResize (tight_add t ⟨PVec.empty, .rw, false⟩) g0 hP n b
   have g2 := good_lockV hP g1 recNew
-  have t2 := tight_lockV hP t1 g1 recNew (Or.inr (Or.inl (by simp)))
+  have t2 := tight_lockV hP t1 g1 recNew (hl.hdp_rw (by simp) (by simp))
   unfold lockedResize
   by_cases hr : (lockV c (vecResize c m PVec.empty n b).1 (vecResize c m PVec.empty n b).2 recNew).2 = true
   · simp only [hr, if_true]
